@@ -937,3 +937,131 @@ Proof.
   assert (Hne : 1%N <> 2%N) by discriminate.
   specialize (H Hne). vm_compute in H. discriminate.
 Qed.
+
+(** * The decryptor with several materials and keys (several sessions in one capture) *)
+Section MultiSession.
+  Variable E : bytes -> bytes -> bytes.
+  Hypothesis E_length : forall k b, length (E k b) = 16.
+
+  (** a (material, key) combination that reports failure and leaves the cache as it is *)
+  Definition combo_rejects (mgrs : list (bytes * mgr)) (pdu : bytes) (mat : material) (k : bytes) : Prop :=
+    try_key E mgrs k mat pdu = (mgrs, Ok None).
+
+  Lemma try_keys_skip mat pdu mgrs ks2 : forall ks1,
+    Forall (combo_rejects mgrs pdu mat) ks1 ->
+    try_keys E mgrs (ks1 ++ ks2) mat pdu = try_keys E mgrs ks2 mat pdu.
+  Proof.
+    induction ks1 as [|k r IH]; intros H; [reflexivity|].
+    inversion H as [|? ? Hk Hr]; subst. cbn [app try_keys]. rewrite Hk. apply IH. exact Hr.
+  Qed.
+
+  Lemma try_keys_all_reject mat pdu mgrs ks :
+    Forall (combo_rejects mgrs pdu mat) ks -> try_keys E mgrs ks mat pdu = (mgrs, Ok None).
+  Proof. intros H. rewrite <- (app_nil_r ks). rewrite try_keys_skip by exact H. reflexivity. Qed.
+
+  Lemma try_mats_skip pdu mgrs ks ms2 : forall ms1,
+    Forall (fun m => Forall (combo_rejects mgrs pdu m) ks) ms1 ->
+    try_mats E mgrs ks (ms1 ++ ms2) pdu = try_mats E mgrs ks ms2 pdu.
+  Proof.
+    induction ms1 as [|m r IH]; intros H; [reflexivity|].
+    inversion H as [|? ? Hm Hr]; subst. cbn [app try_mats].
+    rewrite (try_keys_all_reject m pdu mgrs ks Hm). apply IH. exact Hr.
+  Qed.
+
+  (** The materials are tried in order and, for each, the keys in order: combinations tried
+      before the right one do not matter as long as they reject; the first accepting
+      combination gives the result. Arbitrary decryptor state. *)
+  Lemma attempt_material_list (ds : dstate) pdu ms1 mat ms2 ks1 key ks2 mgrs' p :
+    mats ds = ms1 ++ mat :: ms2 -> keys ds = ks1 ++ key :: ks2 ->
+    (N.eqb (nth 1 pdu 0%N) 0 && N.eqb (N.land (nth 0 pdu 0%N) 3) 1)%bool = false ->
+    Forall (fun m => Forall (combo_rejects (managers ds) pdu m) (keys ds)) ms1 ->
+    Forall (combo_rejects (managers ds) pdu mat) ks1 ->
+    try_key E (managers ds) key mat pdu = (mgrs', Ok (Some p)) ->
+    attempt E ds pdu = ({| keys := keys ds; mats := mats ds; managers := mgrs' |}, Ok (Some p)).
+  Proof.
+    intros Hm Hk Hne Hms Hks Hhit. unfold attempt.
+    destruct (mats ds) as [|m0 mr] eqn:Em; [destruct ms1; discriminate|].
+    destruct (keys ds) as [|k0 kr] eqn:Ek; [destruct ks1; discriminate|].
+    rewrite Hne. rewrite Hm. rewrite try_mats_skip by exact Hms.
+    cbn [try_mats]. rewrite Hk. rewrite try_keys_skip by exact Hks.
+    cbn [try_keys]. rewrite Hhit. rewrite <- Hm, <- Hk. reflexivity.
+  Qed.
+
+  (** the right (key, material) of a session recovers its PDU whatever else is cached:
+      [rx] is the manager the decryptor uses for that key (cached one, or a fresh one) *)
+  Lemma try_key_session mgrs key mat tx rx d h l rest c :
+    match lookup key mgrs with Some m => Ok m | None => mk_manager E key mat end = Ok rx ->
+    sk tx = sk rx -> iv tx = iv rx -> (cnt rx d <= cnt tx d)%N ->
+    encrypt E tx (h :: l :: rest) d = Ok c ->
+    let a := air_pdu c in
+    let gap := N.to_nat (cnt tx d - cnt rx d) in
+    gap < 2 -> rejects_from E rx d (cnt rx d) gap a = true ->
+    match d with M2S => true | S2M => rejects_from E rx M2S (cnt rx M2S) 2 a end = true ->
+    try_key E mgrs key mat a
+    = (store key (incr (set_cnt rx d (cnt tx d)) d) mgrs, Ok (Some (h :: l :: rest))).
+  Proof.
+    intros Heff Hk Hi Hle He a gap Hgap Hrej Hcross.
+    rewrite encrypt_shape in He. injection He as <-.
+    unfold air_pdu in a. cbn iota in a.
+    assert (Hc : cnt tx d = (cnt rx d + N.of_nat gap)%N) by (unfold gap; lia).
+    destruct (decrypt_encrypt_gen E E_length tx rx h l (l + 4)%N rest d 2 gap Hk Hi Hc Hgap Hrej) as [Hd _].
+    fold a in Hd.
+    unfold try_key. rewrite Heff.
+    destruct d.
+    - rewrite Hd. cbn [strip_mic_len]. rewrite N.add_sub. reflexivity.
+    - destruct (tamper_fails_if_mac_differs E E_length rx a M2S 2) as [q Hf];
+        [unfold a; discriminate|lia|exact Hcross|].
+      rewrite Hf. rewrite Hd. cbn [strip_mic_len]. rewrite N.add_sub. reflexivity.
+  Qed.
+
+  (** Several sessions in one capture: a captured PDU of ANY session whose key and material the
+      decryptor holds (anywhere in its lists) is recovered exactly, from an arbitrary decryptor
+      state, provided the combinations tried before reject it (MAC condition) and the manager
+      used for the session's key is in step with the sender within the tolerance. *)
+  Lemma decryptor_multi_session_pdu (ds : dstate) ms1 mat ms2 ks1 key ks2 tx rx d h l rest c :
+    mats ds = ms1 ++ mat :: ms2 -> keys ds = ks1 ++ key :: ks2 ->
+    match lookup key (managers ds) with Some m => Ok m | None => mk_manager E key mat end = Ok rx ->
+    sk tx = sk rx -> iv tx = iv rx -> (cnt rx d <= cnt tx d)%N ->
+    encrypt E tx (h :: l :: rest) d = Ok c ->
+    let a := air_pdu c in
+    let gap := N.to_nat (cnt tx d - cnt rx d) in
+    gap < 2 -> rejects_from E rx d (cnt rx d) gap a = true ->
+    match d with M2S => true | S2M => rejects_from E rx M2S (cnt rx M2S) 2 a end = true ->
+    Forall (fun m => Forall (combo_rejects (managers ds) a m) (keys ds)) ms1 ->
+    Forall (combo_rejects (managers ds) a mat) ks1 ->
+    attempt E ds a
+    = ({| keys := keys ds; mats := mats ds;
+          managers := store key (incr (set_cnt rx d (cnt tx d)) d) (managers ds) |},
+       Ok (Some (h :: l :: rest))).
+  Proof.
+    intros Hm Hk Heff Hsk Hiv Hle He a gap Hgap Hrej Hcross Hms Hks.
+    apply (attempt_material_list ds a ms1 mat ms2 ks1 key ks2); try assumption.
+    - rewrite encrypt_shape in He. injection He as <-. unfold a, air_pdu. cbn [nth].
+      replace (N.eqb (l + 4) 0) with false by (symmetry; apply N.eqb_neq; lia). reflexivity.
+    - apply (try_key_session (managers ds) key mat tx rx d h l rest c); assumption.
+  Qed.
+End MultiSession.
+
+(** a later session that reuses the key of an earlier one with fresh SKD/IV is NOT recovered:
+    the cache is keyed by the key alone (known finding decryptor-cache-keyed-by-key-only) *)
+Definition same_key_sessions_statement : Prop :=
+  forall (key : bytes) (m1 m2 : material) (st1 st2 : mgr) (evs1 evs2 : list event),
+    mk_manager aes128_enc key m1 = Ok st1 -> mk_manager aes128_enc key m2 = Ok st2 ->
+    pdus_ok evs1 -> pdus_ok evs2 ->
+    capture_ok aes128_enc st1 st1 evs1 = true -> capture_ok aes128_enc st2 st2 evs2 = true ->
+    snd (attempt_all aes128_enc {| keys := [key]; mats := [m1; m2]; managers := [] |}
+                     (capture aes128_enc st1 evs1 ++ capture aes128_enc st2 evs2))
+    = captured_plain evs1 ++ captured_plain evs2.
+
+Lemma same_key_sessions_refuted : ~ same_key_sessions_statement.
+Proof.
+  intros H.
+  pose (m2 := {| m_skd := 5; m_iv := 6; s_skd := 7; s_iv := 8 |}).
+  pose (evs := [(M2S, [2; 3; 97; 98; 99]%N, true); (S2M, [10; 2; 1; 2]%N, true)] : list event).
+  destruct (mk_manager aes128_enc nv_key nv_mat) as [st1|] eqn:E1; [|vm_compute in E1; discriminate].
+  destruct (mk_manager aes128_enc nv_key m2) as [st2|] eqn:E2; [|vm_compute in E2; discriminate].
+  specialize (H nv_key nv_mat m2 st1 st2 evs evs E1 E2).
+  vm_compute in E1. injection E1 as <-. vm_compute in E2. injection E2 as <-.
+  assert (P : pdus_ok evs) by (repeat constructor).
+  specialize (H P P). vm_compute in H. specialize (H eq_refl eq_refl). discriminate.
+Qed.
